@@ -1226,13 +1226,17 @@ pub fn execute(t: &WorldTrace, stats: &mut Stats) -> RunReport {
                 Entry::Tokenize => "tokenize",
                 _ => continue,
             };
-            if !matches!(v.role.as_str(), "dir" | "files" | "mix" | "parts") || matches!(o.outcome, Outcome::Panic(_)) {
+            // fault-free executions and those with a static fault (missing path, dangling symlink, …)
+            // are deterministic and can be repeated by the shipped binary; dynamic faults cannot
+            let repeatable = matches!(v.role.as_str(), "dir" | "files" | "mix" | "parts") || (v.role.starts_with("fault.static.") && v.faults.is_empty());
+            if !repeatable || matches!(o.outcome, Outcome::Panic(_)) {
                 continue;
             }
             proc_cases.push(crate::proc_check::ProcCase::Cli {
                 run_index: 0,
                 label: format!("{} {}", v.role, world_kind(&t.world)),
                 files: v.files.iter().map(|f| (f.name.clone(), file_bytes(&t.world, f))).collect(),
+                extras: v.extras.clone(),
                 cmd: cmd.to_string(),
                 args: v.args.clone(),
                 predicted_ok: !o.failed(),
